@@ -23,6 +23,9 @@ type sheetSpec struct {
 	Name string
 	Rows [][]string
 	Meta map[string]string // metasheet columns for this sheet (Transpose, Merger, …)
+	// Ragged: CSV records are written with their trailing blank cells trimmed (as a hand-edited CSV or an
+	// export of a ragged sheet has them) instead of padded to a rectangle
+	Ragged bool
 }
 
 type bookSpec struct {
@@ -88,6 +91,33 @@ func writeCSV(path string, rows [][]string) {
 	cw.Flush()
 }
 
+// writeCSVRagged writes every record without its trailing blank cells (at least one cell)
+func writeCSVRagged(path string, rows [][]string) {
+	if err := os.MkdirAll(filepath.Dir(path), 0o755); err != nil {
+		panic(err)
+	}
+	f, err := os.Create(path)
+	if err != nil {
+		panic(err)
+	}
+	defer f.Close()
+	cw := csv.NewWriter(f)
+	for _, r := range rows {
+		n := len(r)
+		for n > 1 && r[n-1] == "" {
+			n--
+		}
+		rr := append([]string{}, r[:n]...)
+		if len(rr) == 0 {
+			rr = []string{""}
+		}
+		if err := cw.Write(rr); err != nil {
+			panic(err)
+		}
+	}
+	cw.Flush()
+}
+
 func metasheetRows(b bookSpec) [][]string {
 	colset := map[string]bool{}
 	for _, s := range b.Sheets {
@@ -125,6 +155,10 @@ func metasheetRows(b bookSpec) [][]string {
 func (w *workspace) writeCSVBook(subdir string, b bookSpec) {
 	dir := filepath.Join(w.In, subdir)
 	for _, s := range b.Sheets {
+		if s.Ragged {
+			writeCSVRagged(filepath.Join(dir, b.Name+"#"+s.Name+".csv"), s.Rows)
+			continue
+		}
 		writeCSV(filepath.Join(dir, b.Name+"#"+s.Name+".csv"), s.Rows)
 	}
 	if !b.NoMeta {
